@@ -102,6 +102,10 @@ struct LzhDrain : Family {
 			if (r.chance(1, 2)) w.set("trunc", r.below(100000));
 			else { size_t nf = static_cast<size_t>(r.range(1, 8)); for (size_t f = 0; f < nf; ++f) w.set("flip" + std::to_string(f), r.below(1u << 20)); }
 		}
+		// streams that decode to megabytes (everything in the over-capacity group, the Fibonacci streams): extracted through the volume
+		// route with byte-sized transfers they would make millions of intercepted calls inside ONE library call and run into the
+		// per-call I/O budget, which exists to catch endless loops - keep short transfers, but not below 64 bytes
+		if (k >= 90) coarsenFaultsForBigWorld(p);
 		p.world.push_back(w);
 		static const uint64_t SZ[] = {0, 1, 2, 3, 59, 60, 61, 62, 63, 4034, 4035, 4095, 4096, 4097, 8192};
 		size_t nops = static_cast<size_t>(r.range(1, 40));
